@@ -694,8 +694,10 @@ class EffectVisitor(ast.NodeVisitor):
     """Conservative syntactic classification of every write a function performs.
     kinds: local | nonlocal | self-attr | fresh-object | param-object | global | class-attr | module-attr | unknown"""
 
-    def __init__(self, fname, fn, module_names, enclosing_locals=()):
+    def __init__(self, fname, fn, module_names, enclosing_locals=(), class_mutables=()):
         self.fname = fname
+        self.class_mutables = set(class_mutables)     # names bound at class level to a mutable container (shared by all instances)
+        self.alias = {}                               # local name -> kind of the object it was looked up from
         self.effects = []
         self.module_names = module_names
         self.params = {a.arg for a in fn.args.args + fn.args.kwonlyargs + fn.args.posonlyargs}
@@ -720,8 +722,18 @@ class EffectVisitor(ast.NodeVisitor):
                         if isinstance(n, ast.Name) and isinstance(n.ctx, ast.Store):
                             self.assigned.add(n.id)
                             v = getattr(node, "value", None)
-                            if isinstance(v, (ast.Call, ast.List, ast.Dict, ast.Set, ast.ListComp, ast.DictComp, ast.SetComp, ast.Tuple)):
+                            if isinstance(v, (ast.List, ast.Dict, ast.Set, ast.ListComp, ast.DictComp, ast.SetComp, ast.Tuple)):
                                 self.fresh.add(n.id)
+                            elif isinstance(v, ast.Call):
+                                f = v.func
+                                looked_up = isinstance(f, ast.Attribute) and f.attr in ("get", "setdefault", "pop", "popitem", "__getitem__", "copy_ref", "values", "items", "keys")
+                                if looked_up:
+                                    # the result of a lookup IS (part of) the container it was looked up in: not a fresh object
+                                    self.alias[n.id] = f.value
+                                else:
+                                    self.fresh.add(n.id)
+                            elif isinstance(v, (ast.Subscript, ast.Attribute)):
+                                self.alias[n.id] = v.value if isinstance(v, ast.Subscript) else v
             elif isinstance(node, (ast.For, ast.comprehension)):
                 for n in ast.walk(node.target):
                     if isinstance(n, ast.Name):
@@ -755,6 +767,13 @@ class EffectVisitor(ast.NodeVisitor):
                 return "global"
             if n in self.nonlocals_decl:
                 return "nonlocal"
+            if n in self.alias and n not in self.fresh and n not in self.params:
+                src = self.alias[n]
+                del_guard = self.alias.pop(n)          # (no cycles)
+                try:
+                    return self.base_kind(src)
+                finally:
+                    self.alias[n] = del_guard
             if n in self.assigned and n not in self.params:
                 return "fresh-object" if n in self.fresh else "local-object"
             if n in self.params:
@@ -765,6 +784,8 @@ class EffectVisitor(ast.NodeVisitor):
                 return "module-attr"
             return "unknown"
         if isinstance(node, ast.Attribute):
+            if isinstance(node.value, ast.Name) and node.value.id in ("self", "cls") and node.attr in self.class_mutables:
+                return "class-attr"                    # reached through the instance, but it lives on the class
             b = self.base_kind(node.value)
             return b
         if isinstance(node, ast.Subscript):
@@ -841,9 +862,28 @@ def function_effects(qualname, func, module):
         return [(qualname, "unknown", "not-a-function")]
     module_names = set(vars(module)) if module else set()
     out = []
+    # names bound in the body of the class (and its bases in this package) to a mutable container: shared by every instance
+    class_mutables = set()
+    owner = getattr(module, qualname.split(".")[0], None) if module and "." in qualname else None
+    if inspect.isclass(owner):
+        for klass in owner.__mro__:
+            if klass is object:
+                continue
+            try:
+                ctree = ast.parse(textwrap.dedent(inspect.getsource(klass))).body[0]
+            except Exception:  # noqa
+                continue
+            for st in ctree.body:
+                tg, val = None, None
+                if isinstance(st, ast.Assign) and len(st.targets) == 1 and isinstance(st.targets[0], ast.Name):
+                    tg, val = st.targets[0].id, st.value
+                elif isinstance(st, ast.AnnAssign) and isinstance(st.target, ast.Name) and st.value is not None:
+                    tg, val = st.target.id, st.value
+                if tg and isinstance(val, (ast.Dict, ast.List, ast.Set, ast.ListComp, ast.DictComp, ast.SetComp, ast.Call)):
+                    class_mutables.add(tg)
 
     def visit(f, name, enclosing):
-        v = EffectVisitor(name, f, module_names, enclosing)
+        v = EffectVisitor(name, f, module_names, enclosing, class_mutables)
         out.extend(v.run())
         inner_enclosing = set(enclosing) | v.assigned | v.params
         for node in v._own_nodes(f):
